@@ -70,7 +70,7 @@ spec:
   hosts: [a.example.com]
   ports: [{number: 80, name: http, protocol: HTTP}]
   resolution: STATIC
-  endpoints: [{address: 1.1.1.1, labels: {version: v1}}]
+  endpoints: [{address: 1.1.1.1, labels: {version: v1}, locality: region1/zone1}, {address: 1.1.1.9, labels: {version: v1}, locality: region2/zone2}]
 `, `
 apiVersion: networking.istio.io/v1
 kind: ServiceEntry
@@ -79,7 +79,7 @@ spec:
   hosts: [a.example.com]
   ports: [{number: 80, name: http, protocol: HTTP}]
   resolution: STATIC
-  endpoints: [{address: 1.1.1.2, labels: {version: v1}}]
+  endpoints: [{address: 1.1.1.2, labels: {version: v1}, locality: region1/zone1}, {address: 1.1.1.9, labels: {version: v1}, locality: region2/zone2}]
 `, `
 apiVersion: networking.istio.io/v1
 kind: ServiceEntry
@@ -167,6 +167,49 @@ metadata: {name: dr-a, namespace: ns1}
 spec:
   host: a.example.com
   trafficPolicy: {loadBalancer: {consistentHash: {httpHeaderName: x-user}}}
+`)
+	addCfg("dr-a-root", `
+apiVersion: networking.istio.io/v1
+kind: DestinationRule
+metadata: {name: dr-a-root, namespace: istio-system}
+spec:
+  host: a.example.com
+  trafficPolicy:
+    outlierDetection: {consecutive5xxErrors: 3, interval: 10s, baseEjectionTime: 30s}
+    loadBalancer: {localityLbSetting: {enabled: true}}
+`)
+	addCfg("dr-w", `
+apiVersion: networking.istio.io/v1
+kind: DestinationRule
+metadata: {name: dr-w, namespace: ns1}
+spec:
+  host: w.example.com
+  trafficPolicy: {loadBalancer: {consistentHash: {httpHeaderName: x-a}}}
+`, `
+apiVersion: networking.istio.io/v1
+kind: DestinationRule
+metadata: {name: dr-w, namespace: ns1}
+spec:
+  host: w.example.com
+  trafficPolicy: {loadBalancer: {consistentHash: {httpHeaderName: x-b}}}
+`)
+	addCfg("tel-otel", `
+apiVersion: telemetry.istio.io/v1
+kind: Telemetry
+metadata: {name: tel-otel, namespace: ns1}
+spec:
+  accessLogging:
+  - providers: [{name: otel}]
+`)
+	addCfg("se-otel", `
+apiVersion: networking.istio.io/v1
+kind: ServiceEntry
+metadata: {name: se-otel, namespace: ns1}
+spec:
+  hosts: [otel.example.com]
+  ports: [{number: 4317, name: grpc-otel, protocol: GRPC}]
+  resolution: STATIC
+  endpoints: [{address: 4.4.4.4}]
 `)
 	addCfg("sidecar-ns1", `
 apiVersion: networking.istio.io/v1
@@ -458,10 +501,10 @@ func (s ustate) after(o op) ustate {
 var bases = map[string]func() ustate{
 	"empty": emptyState,
 	"rich": func() ustate {
-		return stateWith("se-a", "se-a2", "se-b", "vs-a", "dr-a", "gateway", "vs-gw", "pa-ns1", "authz", "reqauth", "telemetry", "envoyfilter", "se-w", "we-w", "k8s-svc", "k8s-pod", "k8s-pod2", "k8s-slice")
+		return stateWith("se-a", "se-a2", "se-b", "vs-a", "dr-a", "dr-a-root", "dr-w", "tel-otel", "gateway", "vs-gw", "pa-ns1", "authz", "reqauth", "telemetry", "envoyfilter", "se-w", "we-w", "k8s-svc", "k8s-pod", "k8s-pod2", "k8s-slice")
 	},
 	"scoped": func() ustate {
-		return stateWith("se-a", "se-a2", "se-b", "vs-a", "dr-a", "sidecar-ns1", "gateway", "vs-gw", "pa-ns1", "authz", "reqauth", "telemetry", "envoyfilter", "se-w", "we-w", "k8s-svc", "k8s-pod", "k8s-pod2", "k8s-slice")
+		return stateWith("se-a", "se-a2", "se-b", "vs-a", "dr-a", "dr-a-root", "dr-w", "tel-otel", "sidecar-ns1", "gateway", "vs-gw", "pa-ns1", "authz", "reqauth", "telemetry", "envoyfilter", "se-w", "we-w", "k8s-svc", "k8s-pod", "k8s-pod2", "k8s-slice")
 	},
 }
 
